@@ -119,6 +119,21 @@ func genC09(tier, out string, sum *Summary) {
 			check(e, d)
 		}
 	}
+	// every construct nested in itself through its operand: the cost must stay proportional to the
+	// depth (an operand evaluated twice per level doubles it at each level)
+	wrappers := []string{"(X)[:]", "(X)[*]", "(X)[]", "(X)[?`true`]", "(X)[::2]", "(X)[::-1]", "(X)[-3:]", "X[:]", "X[*]", "X[::1]", "X[?@]", "(X)[0:][*]",
+		"to_array(X)[:]", "reverse(X)[:]", "sort(X)[:]", "not_null(X)", "not_null(`null`, X)", "[X][0]", "[X][0][:]", "{a: X}.a", "{a: X}.a[:]", "(X) | @", "(X) | @[:]",
+		"let $v = X in $v", "let $v = X in $v[:]", "map(&@, X)", "map(&@, X)[:]", "(X || `[]`)", "(X)[:] || `[]`", "merge({a: X}).a", "values({a: X})[0]", "(X)[:][0:]", "[X][*][*]", "(X)[*] | [:]",
+		"sort_by(X, &@)", "sort_by(X, &@)[:]", "(X)[?@ == @]", "(X)[?@ == @][:]", "[X][][]", "!(X)", "- (X)", "(X) == `1`", "abs(X)", "to_string(X)", "length(to_array(X))"}
+	for _, w := range wrappers {
+		for _, d := range []int{4, 16, 48} {
+			e := "a"
+			for i := 0; i < d; i++ {
+				e = strings.Replace(w, "X", e, 1)
+			}
+			check(e, docs[0])
+		}
+	}
 	// nesting depth up to the expression length
 	depths := []int{10, 100, 1000, 10000}
 	if tier == "thorough" {
